@@ -124,6 +124,30 @@ def diagOf [OfNat R 0] (d : Dense R) (k : Nat) : Int × (Nat → R) :=
 def diaOfDense [OfNat R 0] (d : Dense R) : Dia R :=
   { rows := d.rows, cols := d.cols, diags := (List.range (d.rows + d.cols - 1)).map (diagOf d) }
 
+/-! ### `matmul_dia`: product of two diagonal-format matrices -/
+section diaMatmul
+variable {R : Type} [Add R] [Mul R] [OfNat R 0]
+
+/-- what one pair of stored diagonals contributes to column `col` of the product (`matmul_dia`): the loop
+bounds `start … end` of the kernel as a condition on `col` -/
+def diaPairTerm (rowsL colsL rowsR colsR : Nat) (scale : R) (dl dr : Int × (Nat → R)) (col : Nat) : R :=
+  let start := max (max (max 0 dl.1 + dr.1) (max 0 dr.1)) (max 0 (dl.1 + dr.1))
+  let stop := min (min (min (colsL : Int) (rowsL + dl.1) + dr.1) (min (colsR : Int) (rowsR + dr.1)))
+    (min (colsR : Int) (rowsL + (dl.1 + dr.1)))
+  if start ≤ (col : Int) ∧ (col : Int) < stop then scale * dl.2 ((col : Int) - dr.1).toNat * dr.2 col else 0
+
+def diaOutValue (L Rm : Dia R) (scale : R) (o : Int) (col : Nat) : R :=
+  (L.diags.flatMap fun dl => Rm.diags.filterMap fun dr =>
+    if dl.1 + dr.1 = o then some (diaPairTerm L.rows L.cols Rm.rows Rm.cols scale dl dr col) else none).foldl (· + ·) 0
+
+/-- `matmul_dia`: the offsets of the result are the in-range sums of a left and a right offset, each once, in
+increasing order (`np.unique`); every pair of stored diagonals adds its products into the diagonal of its sum -/
+def matmulDia (L Rm : Dia R) (scale : R) : Dia R :=
+  let offs := ((List.range (L.rows + Rm.cols - 1)).map fun (k : Nat) => (k : Int) - (L.rows : Int) + 1).filter fun o =>
+    L.diags.any fun dl => Rm.diags.any fun dr => dl.1 + dr.1 == o
+  { rows := L.rows, cols := Rm.cols, diags := offs.map fun o => (o, diaOutValue L Rm scale o) }
+end diaMatmul
+
 /-! ### the dispatcher: a specialisation built from a registered one and conversions -/
 
 /-- converters between formats preserve the matrix; `Repr f` is the carrier of format `f` -/
